@@ -942,5 +942,7 @@ pub fn run(class: &str, seed: u64, p: &Params) -> RunResult {
         wall_ms: t0.elapsed().as_millis() as u64,
         virtual_ms: vt,
         sample,
+        cases: 0,
+        classes: Vec::new(),
     }
 }
